@@ -37,7 +37,8 @@ RULE = ("all registered (message, block, variable) serializers; int-typed: every
         "the fixed-point law; shards are split over 3 process time zones. distinct_nontrivial = distinct (serializer key, "
         "context, raw/payload) cases that decoded to something other than UNSERIALIZABLE"
         ". Round-5 additions: the literal law is applied to both printed forms - repr() and the library's own printer (HippoPrettyPrinter, the one the textual message form is made with); double fields also get single-precision values widened to double"
-        ". Rounds 6-7: a refused encode (integer too large, late in the structure) precedes every other own-payload check; tiny payloads (zero entries, lone count bytes) for every key; face numbers beyond 64; calls from four threads; last in each shard the library's template reload is provoked and values decoded before it are written back through the Block API")
+        ". Rounds 6-7: a refused encode (integer too large, late in the structure) precedes every other own-payload check; tiny payloads (zero entries, lone count bytes) for every key; face numbers beyond 64; calls from four threads; last in each shard the library's template reload is provoked and values decoded before it are written back through the Block API"
+        ". Round 8: order of equal entries after a round trip; blocks moved from one message to another (payloads generated per registry key); the library printer in the literal law")
 ASSUMPTIONS = [
     "registrations whose variable no longer exists in the message template are listed and skipped",
     "date adapters may reject raws outside year 1..9999 (counted; at least 200 raws per date field must have been accepted)",
